@@ -1316,6 +1316,15 @@ class Compiler:
         fallback = identifier("__fallback", id(node))
         body += template("fallback = len(__stream)", fallback=fallback)
 
+        # The translation settings (domain, context, target language)
+        # that the abandoned element or its descendants have set are
+        # not restored on the way out of a failure; the handler puts
+        # back those of the enclosing element.
+        saved = identifier("__i18n_saved", id(node))
+        body += template(
+            "saved = (__i18n_domain, __i18n_context, target_language)",
+            saved=saved)
+
         self._enter_assignment((node.name, ))
         fallback_body = self.visit(node.fallback)
         self._leave_assignment((node.name, ))
@@ -1337,7 +1346,10 @@ class Compiler:
             handlers=[ast.ExceptHandler(
                 type=ast.Tuple(elts=[Builtin("Exception")], ctx=ast.Load()),
                 name="__exc",
-                body=(error_assignment +
+                body=(template(
+                          "__i18n_domain, __i18n_context, target_language = saved",  # noqa: E501 line too long
+                          saved=saved) +
+                      error_assignment +
                       template("del __stream[fallback:]", fallback=fallback) +
                       fallback_body
                       ),
